@@ -88,6 +88,16 @@ func TestC11(t *testing.T) {
 		}
 		synctest.Test(t, func(t *testing.T) { c11Run(t, run, sc) })
 	}
+	// "any sequence of commands" includes commands that overlap: the file a restart would read once
+	// all of them have returned must restore the configuration then in force (the overlap scenarios
+	// of C12, which place the snapshot steps of two commands between each other)
+	for k := 0; k < run.N(12, 400); k++ {
+		sc := c12Gen(run.Rand(n+k), 4*k+3, 1<<30, 0, 0)
+		if !run.Mine(n+k, sc) {
+			continue
+		}
+		synctest.Test(t, func(t *testing.T) { c12Sim(t, run, sc) })
+	}
 }
 
 // probeView: what the targets see of the health-check settings (path and cadence), per target,
